@@ -45,6 +45,8 @@ THEOREMS = [
     "Nix.C18.C18_shape_collect",
     "Nix.C18.C18_shape_tests",
     "Nix.C18.C18_shape_conversion",
+    "Nix.C18.C18_shape_readers",
+    "Nix.C18.C18_shape_ops",
     "Nix.C18.C18_values_never_lost",
     "Nix.C18.C18_failed_stays_old",
     "Nix.C18.C18_inside_never_rescheduled",
